@@ -115,23 +115,38 @@ def run(ck):
     src = [("S", "a.slice", "module M\nstruct S { a: int32 }\n")]
     extra = ["--diagnostic-format", "json"]
     dlines = [dc.run_line(False, extra, [("gen-reply-0", None, dc.enc_reply([]))], src)]
-    for r in rend:
-        dlines.append(dc.run_line(False, extra, [("gen-reply-0", r[2:] if r.startswith("p,") else None, dc.enc_reply([]))], src))
+    groups = []      # each run: 1..3 generators, each with an argument list of its own (also none)
+    k = 0
+    while k < len(rend):
+        g = rng.choice([1, 1, 2, 3])
+        idxs = list(range(k, min(k + g, len(rend))))
+        k += g
+        none_at = rng.randrange(len(idxs) + 1) if rng.random() < 0.3 else None
+        gens = []
+        for pos, i in enumerate(idxs):
+            if none_at == pos:
+                gens.append(("gen-reply-n%d" % pos, None, None))
+            gens.append(("gen-reply-%d" % pos, rend[i][2:] if rend[i].startswith("p,") else None, i))
+        groups.append(gens)
+        dlines.append(dc.run_line(False, extra, [(nm, a, dc.enc_reply([])) for nm, a, _ in gens], src))
     od = [dc.parse_run(x) for x in dc.run_all(dlines)]
-    ck.stream("delivered", description="the slicec binary with one recording generator given argument lists (repeated keys, omitted '=', empty values, escaped separators, Unicode) written by the extracted render_opt; "
-              "observable: the bytes the generator reads: the request of the argument-less run followed by the encoded dictionary of exactly the parsed pairs, in order")
+    ck.stream("delivered", description="the slicec binary with 1..3 recording generators, each given an argument list of its own (repeated keys, omitted '=', empty values, escaped separators, Unicode, or none) written by the extracted render_opt; "
+              "observable: the bytes each generator reads: the request of the argument-less run followed by the encoded dictionary of exactly its own parsed pairs, in order")
     base = od[0]["gens"].get("gen-reply-0", (0, "none"))[1] if od[0] else "none"
     if base == "none" or not base.endswith("00"):
         ck.violation("delivered", "baseline", dlines[0][:200], "a request ending in an empty argument list", str(base)[-40:], kind="correspondence")
     else:
         prefix = bytes.fromhex(base)[:-1]
-        for a, r, x, line in zip(arglists, rend, od[1:], dlines[1:]):
-            ck.count("delivered", line, kind="args=%d%s" % (len(a), ",repeated-key" if len({trim(k) for _, k, _ in a}) < len(a) else ""))
-            want = prefix + bytes([len(a) << 2]) + b"".join(dc.vstr(trim(k)) + dc.vstr(trim(v)) for _, k, v in a)
-            got = x["gens"].get("gen-reply-0", (0, "none")) if x else (0, "crash")
-            if got[0] != 1 or got[1] in ("none", "crash") or bytes.fromhex(got[1]) != want:
-                tail = bytes.fromhex(got[1])[len(prefix):] if got[1] not in ("none", "crash") else got[1]
-                ck.violation("delivered", "arguments-changed-on-the-way", "--generator=GEN," + r[2:], "started once and given %r" % [(trim(k), trim(v)) for _, k, v in a], "started %d time(s), argument bytes %r" % (got[0], tail))
+        for gens, x, line in zip(groups, od[1:], dlines[1:]):
+            ck.count("delivered", line, kind="generators=%d" % len(gens))
+            for nm, argspec, i in gens:
+                a = arglists[i] if i is not None else []
+                want = prefix + bytes([len(a) << 2]) + b"".join(dc.vstr(trim(k_)) + dc.vstr(trim(v_)) for _, k_, v_ in a)
+                got = x["gens"].get(nm, (0, "none")) if x else (0, "crash")
+                if got[0] != 1 or got[1] in ("none", "crash") or bytes.fromhex(got[1]) != want:
+                    tail = bytes.fromhex(got[1])[len(prefix):] if got[1] not in ("none", "crash") else got[1]
+                    ck.violation("delivered", "arguments-changed-on-the-way", " ".join("--generator=%s%s" % (n2, "," + a2 if a2 else "") for n2, a2, _ in gens),
+                                 "%s started once and given %r" % (nm, [(trim(k_), trim(v_)) for _, k_, v_ in a]), "started %d time(s), argument bytes %r" % (got[0], tail))
     ck.extra["exhaustive"] = True
     ck.extra["rule"] = "exhaustive: all 3906 strings of length <= 5 over 5 characters; %d random written specifications over the whole Unicode range; 300 repeated -G command lines. Distinct by case text; all non-trivial." % n
     ck.partial.append("clap's own option parsing is exercised, not modelled; the encoding of the argument dictionary is the codec's (C10)")
